@@ -3,6 +3,7 @@
 -/
 import Gojq.Proofs.RoundTripAll
 import Gojq.Proofs.RoundTripLexItems
+import Gojq.Proofs.SpacedAll
 namespace Gojq.RefTerm
 open Gojq
 
@@ -12,5 +13,11 @@ theorem roundtrip_ref (q : Query) (hp : Printable q = true) (hs : Spaced q = tru
   unfold printQ
   rw [tokensOf_render _ hs]
   exact refParse_items q hp
+
+/-- PRINT, LEX, PARSE: the identity on Printable queries (the adjacency condition follows from
+    Printable: `spaced_of_printable`) -/
+theorem roundtrip_printable (q : Query) (hp : Printable q = true) :
+    ∃ F, ∀ f, F ≤ f → refParseQ f (tokensOf (printQ q)) = some q :=
+  roundtrip_ref q hp (spaced_of_printable q hp)
 
 end Gojq.RefTerm
